@@ -70,4 +70,21 @@ class SignBindingBase(Pipeline):
         e3["kinds_seen"] = e3["kinds_seen"] + ["MsgVerifNewClaim"]
         v3 = Pipeline.validate(self, [e3])
         c3 = any(n.endswith(".KindTableComplete") for n, _, _ in v3.monfail)
-        return {"ok": c1 and c2 and c3, "unchanged_digest_noticed": c1, "unlisted_field_noticed": c2, "unlisted_kind_noticed": c3}
+        res = {"ok": c1 and c2 and c3, "unchanged_digest_noticed": c1, "unlisted_field_noticed": c2, "unlisted_kind_noticed": c3}
+        if self.family == "C11":
+            # (4) an attestation filed under a key that is not the key of its stored body; (5) a voter whose submission
+            #     differs from the stored body in an effect-bearing field
+            g = next((e for e in events if e["act"] == "Check" and e["res"] == "ok" and e["differs"] and e.get("atts")), None)
+            if g is None:
+                return dict(res, ok=False, why="no event with observed attestations")
+            e4 = copy.deepcopy(g)
+            e4["atts"][0]["body_key"] = e4["atts"][0]["body_key"][:-2] + ("00" if not e4["atts"][0]["body_key"].endswith("00") else "01")
+            c4 = any(n == "C11.StoredBodyIsVotedBody" for n, _, _ in Pipeline.validate(self, [e4]).monfail)
+            e5 = copy.deepcopy(g)
+            e5["atts"][0]["diff"] = ["skyway_nonce"]
+            c5 = any(n == "C11.StoredBodyIsVotedBody" for n, _, _ in Pipeline.validate(self, [e5]).monfail)
+            e6 = copy.deepcopy(g)
+            e6["atts"][0]["diff"] = ["orchestrator", "metadata.creator"]     # voter identity may differ
+            c6 = not any(n == "C11.StoredBodyIsVotedBody" for n, _, _ in Pipeline.validate(self, [e6]).monfail)
+            res.update(ok=res["ok"] and c4 and c5 and c6, foreign_key_noticed=c4, voter_body_mismatch_noticed=c5, voter_identity_tolerated=c6)
+        return res
